@@ -53,6 +53,13 @@ def run(ck, tier):
     dialect_first_wins(ck, p, byk, "R-C06-union")
     _glued(ck, p, byk)
     _contraction(ck, p)
+    ck.rule("R-C06-nomemo", "what Document::parse attaches to a word comes from the dictionary it was given, every time: no static with interior mutability in the workspace other than the registered, individually justified memos (rule instances of R-C05-statics) - a look-up cache keyed by the word alone would replay one dictionary's answer for another")
+    try:
+        from . import c05
+        c05._statics(c05._Sub(ck, "R-C06-nomemo", ""), p, byk)
+    except Exception as e:
+        import traceback
+        ck.refuted("R-C06-nomemo", "internal:%s" % type(e).__name__, "", "rule could not run: %s" % traceback.format_exc()[-600:])
 
 
 def _id(ck, p, byk):
